@@ -96,7 +96,10 @@ func (m *Mirror) checkAscending(i int) error {
 	u := m.Msgs[i].UID
 	for j := i - 1; j >= 0; j-- {
 		if p := m.Msgs[j].UID; p != 0 {
-			if p >= u {
+			if p == u {
+				return fmt.Errorf("UID %d now answered for sequence number %d was announced for sequence number %d (a message with a lower UID was inserted before announced messages)", u, i+1, j+1)
+			}
+			if p > u {
 				return fmt.Errorf("UIDs not strictly ascending: seq %d has UID %d, seq %d has UID %d", j+1, p, i+1, u)
 			}
 			break
@@ -104,7 +107,10 @@ func (m *Mirror) checkAscending(i int) error {
 	}
 	for j := i + 1; j < len(m.Msgs); j++ {
 		if p := m.Msgs[j].UID; p != 0 {
-			if p <= u {
+			if p == u {
+				return fmt.Errorf("UID %d now answered for sequence number %d was announced for sequence number %d (a message with a lower UID was inserted before announced messages)", u, i+1, j+1)
+			}
+			if p < u {
 				return fmt.Errorf("UIDs not strictly ascending: seq %d has UID %d, seq %d has UID %d", i+1, u, j+1, p)
 			}
 			break
